@@ -293,7 +293,7 @@ def uri_corruptions(has_issuer):
     else:
         names += ["issuer_conflict:added"]
     for k in URI_PARAMS:
-        names += [f"dup:{k}:same", f"dup:{k}:other", f"dup:{k}:front"]
+        names += [f"dup:{k}:same", f"dup:{k}:other", f"dup:{k}:front", f"dup:{k}:blank_front", f"dup:{k}:blank_back"]
     return names
 
 
@@ -351,6 +351,10 @@ def corrupt_uri(u, name):
         return join(items + [["issuer", "other"]], lead + "one:" + path)
     kind, k, how = name.split(":")
     assert kind == "dup"
+    if how.startswith("blank_"):
+        # the parameter given twice, one of the two occurrences with an empty value ('secret=&...&secret=KEY')
+        its = items if k in have else items + [[k, OTHER_VALUE[k]]]
+        return join([[k, ""]] + its if how == "blank_front" else its + [[k, ""]])
     cur = have.get(k)
     if cur is None:
         # the parameter was elided: give it twice
